@@ -169,7 +169,7 @@ func runC03(c *core.Ctx) {
 	// ---- keys absent / empty / duplicated for map and URL inputs
 	k := 0
 	for _, text := range []string{"required", "required|m_req", "required,to=1~3|m_r", "to=1~3|m_r,required|必_req", "phone|m_r", "to=2~3"} {
-		for _, shape := range []string{"absent", "empty", "nonempty", "dup-empty-first", "dup-empty-last", "absent-among-others", "no-query", "bare-after-value", "bare-only"} {
+		for _, shape := range []string{"absent", "empty", "nonempty", "dup-empty-first", "dup-empty-last", "absent-among-others", "no-query", "bare-after-value", "bare-only", "nil-map", "raw-equals-in-value"} {
 			for _, keyName := range []string{"a", "ids[]", "姓名", "first name", "a+b"} {
 				k++
 				if !c.Mine(k) {
@@ -341,16 +341,30 @@ func c03Absent(res *core.Result, text, shape, keyName string) {
 		params = []kv{{"b", "abcd"}, {keyName, "\x00bare"}}
 	case "bare-only":
 		params = []kv{{keyName, "\x00bare"}}
+	case "nil-map":
+		params = nil // the map input is a nil map: every key is missing
+	case "raw-equals-in-value":
+		// "?<key>=YWJjZA==": a raw '=' inside the value. What the value is cut to is not documented,
+		// but it is supplied and non-empty; only required is judged on it
+		if !strings.HasPrefix(text, "required") || strings.Contains(text, ",") {
+			return
+		}
+		params = []kv{{keyName, "\x00raweq"}}
 	}
 	res.Count("absent_key_cases")
 	// URL
-	{
+	if shape != "nil-map" {
 		q := []string{}
 		entries := []ref.FlatEntry{}
 		for _, p := range params {
 			if p.v == "\x00bare" {
 				q = append(q, url.QueryEscape(p.k))
 				entries = append(entries, ref.FlatEntry{Key: p.k, Val: reflect.ValueOf("")})
+				continue
+			}
+			if p.v == "\x00raweq" {
+				q = append(q, url.QueryEscape(p.k)+"=YWJjZA==")
+				entries = append(entries, ref.FlatEntry{Key: p.k, Val: reflect.ValueOf("YWJjZA==")})
 				continue
 			}
 			q = append(q, url.QueryEscape(p.k)+"="+url.QueryEscape(p.v))
@@ -370,8 +384,11 @@ func c03Absent(res *core.Result, text, shape, keyName string) {
 		}
 	}
 	// map (no duplicates in a map)
-	if !strings.HasPrefix(shape, "dup") && shape != "no-query" && !strings.HasPrefix(shape, "bare") {
+	if !strings.HasPrefix(shape, "dup") && shape != "no-query" && !strings.HasPrefix(shape, "bare") && shape != "raw-equals-in-value" {
 		m := map[string]string{}
+		if shape == "nil-map" {
+			m = nil
+		}
 		entries := []ref.FlatEntry{}
 		for _, p := range params {
 			m[p.k] = p.v
@@ -385,6 +402,8 @@ func c03Absent(res *core.Result, text, shape, keyName string) {
 			if slice {
 				prefix = "[0]"
 				in = []map[string]string{m}
+			} else if shape == "nil-map" && len(keyName)%2 == 0 {
+				in = &m // pointer to a nil map
 			}
 			env.ExpectFlat(entries, rules, func(k string) string { return prefix + "map[" + k + "]" }, prefix, true, nil)
 			exps := env.Finish()
